@@ -188,7 +188,9 @@ func instrumentDir(root, dir string, rep *report) {
 			rep.Sites = append(rep.Sites, st)
 			return true
 		})
-		edits = append(edits, syncEdits(fset, f, b, info, relFile, rep)...)
+		if os.Getenv("VERIF_INSTR_MODE") != "maps" {
+			edits = append(edits, syncEdits(fset, f, b, info, relFile, rep)...)
+		}
 		if len(edits) == 0 {
 			continue
 		}
